@@ -55,6 +55,10 @@
 //!     (f) re-open with leftovers: empty key directory, empty prefix directory, a key directory holding only a `.x.tmp` leftover,
 //!     dangling symlinks / symlinks to a directory / to a genuine item file at root, prefix and key level, a copy of the genuine key
 //!     directory under the prefix directory with swapped letter case.
+//!     (g) a sparse file of 10 GiB + 1 byte (beyond DEFAULT_CHUNK_CACHE_CAPACITY) with a well-formed item name next to six valid
+//!     items: the re-open may fail as a whole, but if it succeeds its counters must equal what it serves.
+//!  S10 several threads read a ~9 MiB item for the FIRST time after a re-open (unverified entry) while one bit near the end of its
+//!     file is flipped, started 0.3 ms apart: nobody may get a hit (the crc of the whole file is wrong); 3 rounds.
 //!  S5 (last, can be skipped with VERIF_C12_SKIP_FOREIGN_DIRS=1) directories with foreign names inside a prefix directory.
 //!
 //! Deterministic inputs from VERIF_SEED (default 0); thread schedules are whatever the machine produces, so the races are
@@ -403,6 +407,23 @@ fn s1_item_of_exactly_the_capacity(seed: u64) -> W {
     for (s, e) in [(0, 1), (12, 14), (2, 9), (20, 21), (2, 9), (3, 5)] {
         put(&c, k, s, e, &ctx)?;
         check_accounting(&c, dir.path(), Some(cap), &format!("{ctx}, after put [{s},{e})"))?;
+        get(&c, k, s, e, true, &ctx)?;
+    }
+    // the directory now holds (at most) the item of exactly the capacity: re-open with the same capacity, go on
+    put(&c, k, 2, 9, &ctx)?;
+    drop(c);
+    let ctx = format!("{ctx}; the item of exactly the capacity is put last; cache re-opened with the same capacity");
+    let c = open_clean(dir.path(), cap, &ctx)?;
+    check_accounting(&c, dir.path(), Some(cap), &ctx)?;
+    get(&c, k, 2, 9, true, &ctx)?;
+    for (s, e) in [(30, 31), (2, 9), (40, 42), (50, 51), (2, 9), (60, 61)] {
+        if item_size_bound(k, s, e) > cap {
+            continue; // C13's proviso: no single item larger than the capacity
+        }
+        let ctx = format!("{ctx}; then put [{s},{e})");
+        put(&c, k, s, e, &ctx)?;
+        eprintln!("S1 exact: after put [{s},{e}) ({} bytes): counters {:?}, files {:?}", item_size_bound(k, s, e), counters(&c, &ctx)?, files_below(dir.path()).iter().map(|f| f.1).collect::<Vec<_>>());
+        check_accounting(&c, dir.path(), Some(cap), &ctx)?;
         get(&c, k, s, e, true, &ctx)?;
     }
     Ok(())
@@ -1397,6 +1418,130 @@ fn s9_api_edges(seed: u64) -> W {
             return Err(format!("{ctx}: a put + get after the re-open is not a hit"));
         }
     }
+    // (g) a (sparse) file larger than DEFAULT_CHUNK_CACHE_CAPACITY in a key directory that also holds valid items: the scan may fail
+    // as a whole (HEAD: "cache directory state is invalid"); if it succeeds, what it counts must be what it serves
+    {
+        let dir = tmp();
+        let root = dir.path();
+        let k = 9910 + 3 * seed + 1;
+        let ranges = [(0u32, 3u32), (10, 12), (20, 25), (30, 31), (40, 44), (50, 52)];
+        let ctx0 = format!("S9g seed {seed}: six items of key#{k}");
+        let c = open_clean(root, cap, &ctx0)?;
+        for (a, b) in ranges {
+            put(&c, k, a, b, &ctx0)?;
+        }
+        drop(c);
+        let files = files_below(root);
+        let key_dir = files[0].0.parent().unwrap_or(root).to_path_buf();
+        // the name is varied until the directory lists at least two valid items BEFORE the huge file (what the scan has already
+        // counted when it meets the file is what matters)
+        let mut huge = key_dir.join(item_name(60, 61, chunk_cache::DEFAULT_CHUNK_CACHE_CAPACITY + 1, 7));
+        let mut made = std::fs::File::create(&huge).and_then(|f| f.set_len(chunk_cache::DEFAULT_CHUNK_CACHE_CAPACITY + 1));
+        for attempt in 0..40u32 {
+            if made.is_err() {
+                break;
+            }
+            let order: Vec<PathBuf> = std::fs::read_dir(&key_dir).map(|rd| rd.filter_map(|e| e.ok()).map(|e| e.path()).collect()).unwrap_or_default();
+            if order.iter().position(|p| *p == huge).unwrap_or(0) >= 2 {
+                break;
+            }
+            let next = key_dir.join(item_name(60, 61, chunk_cache::DEFAULT_CHUNK_CACHE_CAPACITY + 1, 8 + attempt));
+            made = std::fs::rename(&huge, &next);
+            huge = next;
+        }
+        if made.is_ok() {
+            let ctx = format!("{ctx0}; cache closed; a sparse file of 10 GiB + 1 byte with a well-formed item name planted in the key directory; re-opened");
+            match open(root, cap, &ctx)? {
+                None => {},
+                Some(c) => {
+                    let mut served = (0usize, 0u64);
+                    for (a, b) in ranges {
+                        if get(&c, k, a, b, true, &ctx)? {
+                            served.0 += 1;
+                            served.1 += item_size_bound(k, a, b);
+                        }
+                    }
+                    get(&c, k, 60, 61, false, &ctx)?;
+                    let (n, bytes) = counters(&c, &ctx)?;
+                    if (n, bytes) != served {
+                        return Err(format!("{ctx}: DiskCache::initialize succeeded; the cache reports num_items()={n} total_bytes()={bytes} but serves (= tracks) {} of the six genuine items with {} bytes", served.0, served.1));
+                    }
+                },
+            }
+            let _ = std::fs::remove_file(&huge);
+            let ctx = format!("{ctx}; the huge file removed again; re-opened");
+            let c = open_clean(root, cap, &ctx)?;
+            check_accounting(&c, root, Some(cap), &ctx)?;
+            for (a, b) in ranges {
+                if !get(&c, k, a, b, true, &ctx)? {
+                    return Err(format!("{ctx}: the genuine item [{a},{b}) is not served"));
+                }
+            }
+        } else {
+            let _ = std::fs::remove_file(&huge);
+            eprintln!("S9g skipped: cannot create a sparse 10 GiB file here");
+        }
+    }
+    Ok(())
+}
+
+/// S10: several threads read a large item for the FIRST time after a re-open (it is unverified) while its file is damaged
+fn s10_concurrent_first_reads(seed: u64) -> W {
+    const THREADS: usize = 8;
+    let cap = 1u64 << 30;
+    let k = 9920 + 3 * seed; // k % 3 == 2: chunks of up to 3000 bytes
+    let (s, e) = (0u32, 6000u32);
+    let dir = tmp();
+    let root = dir.path();
+    let ctx0 = format!("S10 seed {seed}: item key#{k} [{s},{e}) of about {} MiB", item_size_bound(k, s, e) >> 20);
+    let c = open_clean(root, cap, &ctx0)?;
+    put(&c, k, s, e, &ctx0)?;
+    drop(c);
+    let file = files_below(root)[0].clone();
+    for round in 0..3u64 {
+        // damage near the end of the data region, so that a reader that trusts an unfinished verification gets far before the
+        // hashing reader notices
+        flip(&file.0, 8 * (file.1 - 1 - 1000 * round) + (seed + round) % 8);
+        let ctx = format!("{ctx0}; cache closed; one bit flipped {} bytes before the end of the file; re-opened; {THREADS} threads get sub-ranges of the item for the first time, started 0 / 0.3 / 0.6 ... ms apart (round {round})", 1 + 1000 * round);
+        let Some(c) = open(root, cap, &ctx)? else { return Ok(()) };
+        let gate = Gate::new(THREADS);
+        let handles: Vec<_> = (0..THREADS)
+            .map(|t| {
+                let (c, gate, ctx) = (c.clone(), gate.clone(), ctx.clone());
+                std::thread::spawn(move || -> W {
+                    gate.wait();
+                    let until = Instant::now() + Duration::from_micros(300 * t as u64);
+                    while Instant::now() < until {
+                        std::hint::spin_loop();
+                    }
+                    // the flipped byte lies in the last chunks: every thread asks for a range that contains it
+                    let a = e - 40 - 3 * t as u32;
+                    if get(&c, k, a, e, true, &ctx)? {
+                        return Err(format!("{ctx}: thread {t}: get(key#{k}, [{a},{e})) is a hit although the file is damaged"));
+                    }
+                    Ok(())
+                })
+            })
+            .collect();
+        for h in handles {
+            match h.join() {
+                Ok(Ok(())) => {},
+                Ok(Err(w)) => return Err(w),
+                Err(_) => infra("S10 worker thread died".into()),
+            }
+        }
+        // self-healed: the item is gone; put it back for the next round
+        let ctx = format!("{ctx}; afterwards the identical item is put again");
+        put(&c, k, s, e, &ctx)?;
+        if !get(&c, k, s, e, true, &ctx)? {
+            return Err(format!("{ctx}: it is not a hit"));
+        }
+        check_accounting(&c, root, Some(cap), &ctx)?;
+        drop(c);
+        if !file.0.exists() {
+            infra("S10: the item file has another name after the re-put".into());
+        }
+    }
     Ok(())
 }
 
@@ -1486,6 +1631,10 @@ fn run(seed: u64) -> W {
     if on("S9") {
         s9_api_edges(seed)?;
         eprintln!("S9 done at {:?}", t.elapsed());
+    }
+    if on("S10") {
+        s10_concurrent_first_reads(seed)?;
+        eprintln!("S10 done at {:?}", t.elapsed());
     }
     if on("S5") && std::env::var("VERIF_C12_SKIP_FOREIGN_DIRS").map_or(true, |v| v != "1") {
         s5_foreign_directories(seed)?;
